@@ -77,9 +77,26 @@ def _init_pool(lemma_ok):
     sys.setrecursionlimit(10000)
 
 
+_TIMINGS = None
+
+
+def _timings():
+    global _TIMINGS
+    if _TIMINGS is None:
+        try:
+            with open(os.path.join(os.path.dirname(os.path.abspath(__file__)), 'timings.json')) as f:
+                _TIMINGS = json.load(f)
+        except (OSError, ValueError):
+            _TIMINGS = {}
+    return _TIMINGS
+
+
 def run_specs(specs, lemma_ok=None, procs=None):
     procs = procs or min(16, os.cpu_count() or 1)
-    specs = sorted(specs, key=lambda s: -s.weight)
+    # longest-processing-time-first: measured wall times of earlier runs (vf/timings.json, a scheduling hint only)
+    # where known, the static weight otherwise
+    tm = _timings()
+    specs = sorted(specs, key=lambda s: -(tm.get(s.name, 0) or 5.0 * s.weight))
     if len(specs) == 1 or procs == 1:
         _init_pool(lemma_ok)
         return [_worker(s) for s in specs]
